@@ -27,11 +27,15 @@ type RankCalculator[T comparable] struct {
 
 // NewRankCalculator returns an initialized reference to a RankCalculator of T
 func NewRankCalculator[T comparable](options ...RankCalculatorOption[T]) *RankCalculator[T] {
-	return &RankCalculator[T]{
+	calculator := &RankCalculator[T]{
 		entries: storage.NewSafeMap[T, *atomic.Int64](0),
 		ranker:  NewPercentileRanker[T](false),
 		mux:     &sync.RWMutex{},
 	}
+	for _, option := range options {
+		option(calculator)
+	}
+	return calculator
 }
 
 // Accumulate adds the value of type T to the rank calculator if it does not already exist, and increments the count
